@@ -149,6 +149,17 @@ PROPS["C11"] = {
     "assumptions": ["'within the context's deadline' = returned by the first quiescent point at or after the deadline"],
 }
 
+PROPS["C12"] = {
+    "pkg": "stk", "env": {"SIM_PROP": "C12"}, "legs": [x for x in STACKS if x != "sim"],
+    "runs": {"quick": 2600, "thorough": 150000}, "budget": {"quick": 240, "thorough": 2400},
+    "rule": "one run = one stack of the catalogue (26 stacks) on 2-4 nodes: 0-3 tasks blocked in Receive and 0-3 in ServeAsk of a victim node with contexts that never expire, optional tells/asks in flight towards it, 1-2 closer tasks (sometimes closing twice, sometimes concurrently) at a seeded step, then new Receive/ServeAsk calls on the closed swarm; finally every node is closed; network faults and all task interleavings from the seed; "
+            "non-trivial = at least one call was blocked when Close was called and several tasks were runnable at once; distinct = distinct scheduler decision traces",
+    "components": TIER_A,
+    "level_text": "seeded exploration of Close timing against blocked and late calls; oracle at the first quiescent point after Close returned plus one simulated second: every call has returned a non-nil error, no callback ran on a task that was still waiting when Close returned, the run quiesces (no spinning); after closing every node: no task started by the stack is alive and no library code runs during a further simulated minute",
+    "level_note": "trusted: instrumenter, scheduler, the task-state snapshot taken at the quiescent point right after Close returned; the goroutine-release clause is not applied to multiplexer stacks (the mux core belongs to the inner swarm, which a muxed swarm's Close does not close)",
+    "assumptions": ["'promptly' = by the first quiescent point after Close returned plus one simulated second"],
+}
+
 NOT_APPLICABLE = {
     "C17": "pure functions of their input (key/peer-id marshal, parse, equality, fingerprint): no schedule, clock, fault or second party for a simulator to vary; see DESIGN.md §7",
 }
